@@ -25,6 +25,8 @@ CLAIMS = {
             NOTE_ENGINE + "; crash model of the property (suffix loss, intact prefix, atomic durable metadata ops); in-operation crash instants and MMap are covered by the correspondence run, not by the theorems"),
     "C04": ("Theorems C04_*: the log chunk of a batch (tagged records in any number of pieces + one batch-finished record) is atomic under replay - any prefix leaves the map unchanged, the whole applies the whole batch - hence no crash splits a batch; a committed batch survives every clean restart; a Sync batch is flushed including its sealing record; crash images at every I/O event inside and after Commit are checked against {before, after} on the real engine and compared with the model",
             NOTE_ENGINE + "; uniqueness of batch ids across a crash is assumed (snowflake + wall clock)"),
+    "C06": ("Theorems C06_*: for every configuration and every history with any number of merges (any scan order covering the files), restarts anywhere under independent configurations - hence the adopting restart, later restarts, merges abandoned with an error, merges repeated before adoption - all results equal those of a plain map on which Merge and Restart are the identity (invariant G = log invariant + state of the merge directory, proved through rotation, the rewrite loop, the three loops of loadMergeFiles, hint load and partial replay); a successful Merge leaves rewritten files that denote exactly the current mapping with one plain record per live key; after adoption the directory is rewritten files + post-merge files and the merge directory is gone; correspondence run on merge-heavy scenarios (output needing fewer/equal/more files, several merges, batches) with file listings compared",
+            NOTE_ENGINE + "; the merge scan order is observed from the implementation and checked to cover all files; concurrent writers during the scan are outside the model (see C09)"),
     "C05": ("Theorems C05_*: a batch behaves as a private copy of the map installed at Commit (read-your-writes, in-order application, put-delete-put ends present), Commit succeeds and marks the batch committed, a committed batch rejects Put/Delete/Get/Commit without changing the database - for every database state, every sequence of batch operations incl. mid-batch flushes; correspondence run on batch-heavy scripts with a layered reference oracle",
             NOTE_ENGINE + "; the staging hash index is abstracted to key lookup; a fatal double unlock is observable only in the correspondence run"),
     "C11": ("Coq theorems (props/C11.v, closed under the global context) for every history of a data file, every record length and every block offset, about an executable model that is run against package datafile on generated histories on every check (bytes, positions, sizes, scans, random reads compared)",
